@@ -139,7 +139,6 @@ const (
 	classAdmin  = 3 // +index
 )
 
-var goroutineHeader = regexp.MustCompile(`(?m)^goroutine \d+ .*$`)
 
 // runScenario executes sc inside a fresh synctest bubble against the real
 // library and returns the recorded history.
@@ -168,6 +167,7 @@ func runScenario(t *testing.T, sc *Scenario) (h *History) {
 		for i, ch := range h.Conns {
 			ch.C2S = halves[i][0].rd.record()
 			ch.S2C = halves[i][0].wr.record()
+			ch.SrvLateWrites = halves[i][0].lateWrites
 		}
 	}()
 
@@ -213,6 +213,9 @@ func runScenario(t *testing.T, sc *Scenario) (h *History) {
 			}
 			close(serveDone)
 		}()
+		if !sc.NoWaitServe {
+			ln.WaitAccepting()
+		}
 
 		var wg sync.WaitGroup
 		h.Conns = make([]*ConnHistory, len(sc.Conns))
@@ -225,8 +228,13 @@ func runScenario(t *testing.T, sc *Scenario) (h *History) {
 			srvEnd.rd.caps = cs.SrvCaps
 			srvEnd.faults = cs.SrvFaults
 			halves[i] = [2]*SimConn{srvEnd, cliEnd}
-			ch := &ConnHistory{ID: i, TLSSent: -1, TLSRecv: -1}
+			ch := &ConnHistory{ID: i, TLSSent: -1, TLSRecv: -1, SrvCloseSeq: -1}
 			h.Conns[i] = ch
+			srvEnd.closeHook = func() {
+				be.mu.Lock()
+				ch.SrvCloseSeq = len(be.events)
+				be.mu.Unlock()
+			}
 			offer := func(net.Conn) bool {
 				for k := 0; k < cs.AcceptErrs; k++ {
 					ln.Offer(nil, tempAcceptErr{})
@@ -327,6 +335,9 @@ func runScenario(t *testing.T, sc *Scenario) (h *History) {
 			buf := make([]byte, 1<<20)
 			buf = buf[:runtime.Stack(buf, true)]
 			h.LeakDump = filterBubbleGoroutines(string(buf))
+			if h.LeakDump == "" {
+				h.Leaked = 0 // only leftovers of earlier runs in this process
+			}
 		}
 		select {
 		case <-serveDone:
@@ -336,20 +347,35 @@ func runScenario(t *testing.T, sc *Scenario) (h *History) {
 	return h
 }
 
-// filterBubbleGoroutines keeps the stacks of goroutines that belong to a
-// synctest bubble and are not the bubble's main goroutine.
+// filterBubbleGoroutines keeps the stacks of goroutines that belong to the
+// current synctest bubble and are not the bubble's main goroutine.
 func filterBubbleGoroutines(dump string) string {
+	gs := strings.Split(dump, "\n\n")
+	bubble := ""
+	for _, g := range gs {
+		if strings.Contains(g, "sim.runScenario.func") && strings.Contains(g, "[running") {
+			if m := bubbleRe.FindStringSubmatch(g); m != nil {
+				bubble = m[1]
+			}
+		}
+	}
+	if bubble == "" {
+		return ""
+	}
 	var out []string
-	for _, g := range strings.Split(dump, "\n\n") {
-		if !strings.Contains(g, "synctest bubble") {
+	for _, g := range gs {
+		m := bubbleRe.FindStringSubmatch(g)
+		if m == nil || m[1] != bubble {
 			continue
 		}
-		if strings.Contains(g, "sim.runScenario.func") && strings.Contains(g, "runtime.Stack") {
+		if strings.Contains(g, "[running") || strings.Contains(g, "internal/synctest.Run(") || strings.Contains(g, "synctest.testingSynctestTest(") {
 			continue
 		}
 		out = append(out, g)
 	}
 	return strings.Join(out, "\n\n")
 }
+
+var bubbleRe = regexp.MustCompile(`synctest bubble (\d+)`)
 
 func runtimeStackAll(buf []byte) int { return runtime.Stack(buf, true) }
